@@ -58,7 +58,13 @@ def _cases(draw):
     specs = [gen.spec_of(d) for d in docs]
     deps = gen.universe_deps(docs)
     bydoc = dict(zip(specs, docs))
-    mode = draw(st.sampled_from(['default', 'lexicon', 'lexicon', 'lexicon', 'lang', 'placeholder', 'placeholder']))
+    mode = draw(st.sampled_from(['default', 'lexicon', 'lexicon', 'lexicon', 'lang', 'placeholder',
+                                 'placeholder', 'siblings', 'siblings']))
+    if mode == 'siblings':
+        # default mode with default expansion and (if x:1 and w:1 are there) the sibling chain
+        sel = {'lexicon': None, 'lang': None, 'expand': None}
+        _sibling_chain(bydoc)
+        return {'universe': u, 'selection': sel, 'insiders': specs, 'outsiders': []}
     sel = {'lexicon': None, 'lang': None, 'expand': None}
     if mode == 'placeholder':
         # constructed: a:1 selected and expanded over b:1 so that a:1's first synset reaches an
@@ -87,6 +93,7 @@ def _cases(draw):
         mode = 'lexicon'
     if mode == 'default':
         sel['expand'] = draw(st.sampled_from([None, '']))
+        _sibling_chain(bydoc)
         return {'universe': u, 'selection': sel, 'insiders': specs, 'outsiders': []}
     if mode == 'lexicon':
         S = draw(st.lists(st.sampled_from(specs), min_size=1, max_size=3, unique=True))
@@ -135,6 +142,32 @@ def _cases(draw):
     return {'universe': u, 'selection': sel, 'insiders': insiders, 'outsiders': ok}
 
 
+def _sibling_chain(bydoc) -> bool:
+    """Constructed (when x:1, w:1 - two extensions of a:1 - and a third lexicon with two synsets are there): a synset of x:1
+    and one of w:1 carry the two ends of a hypernym link that only the third lexicon declares.  In default mode
+    the borrowed link leads x:1's synset to a placeholder: w:1 is not in x:1's family."""
+    third = next((k for k in ('b:1', 'a:2', 'r:1')
+                  if k in bydoc and len(bydoc[k].get('synsets', [])) >= 2), None)
+    if 'x:1' not in bydoc or 'w:1' not in bydoc or third is None:
+        return False
+    for k in ('x:1', 'w:1'):
+        if not any(not ss.get('external') for ss in bydoc[k].get('synsets', [])):
+            bydoc[k].setdefault('synsets', []).append(
+                {'id': f'{k[0]}{k[0]}-ssq', 'ili': '', 'meta': None, 'partOfSpeech': 'n'})
+    xs = [ss for ss in bydoc['x:1'].get('synsets', []) if not ss.get('external')]
+    ws = [ss for ss in bydoc['w:1'].get('synsets', []) if not ss.get('external')]
+    bs = bydoc[third].get('synsets', [])
+    xs[0]['ili'], ws[0]['ili'] = 'iq', 'ip'
+    xs[0].pop('ili_definition', None)
+    ws[0].pop('ili_definition', None)
+    bs[0]['ili'], bs[1]['ili'] = 'iq', 'ip'
+    for b_ in bs[:2]:
+        b_.pop('ili_definition', None)
+    bs[0].setdefault('relations', []).append(
+        {'target': bs[1]['id'], 'relType': 'hypernym', 'meta': None})
+    return True
+
+
 def _ids(docs):
     e, s, ss = set(), set(), set()
     for d in docs:
@@ -157,6 +190,10 @@ def _classify(case):
             'expand:' + {None: 'default', '': 'empty'}.get(case['selection']['expand'], 'explicit')]
     sel = (case['selection']['lexicon'] or '').split()
     nt = False
+    if tags[0] == 'mode:default' and tags[1] == 'expand:default' and 'x:1' in bydoc \
+            and 'w:1' in bydoc and any(ss.get('ili') == 'iq' for ss in bydoc['x:1'].get('synsets', [])):
+        tags.append('sibling-extensions-linked-through-a-third-lexicon')
+        nt = True
     for o in case['outsiders']:
         tags.append('outsider')
         if deps.get(o) in sel or any(b in sel for b in _bases(o, deps)):
@@ -433,5 +470,6 @@ SUBS = [
         budget={'quick': 150, 'thorough': 1000}, sample=_sample,
         fingerprint=lambda c: fingerprint([c['universe'], c['selection'], c['outsiders']]),
         require_tags=('outsider-extends-selected', 'outsider-shares-ids', 'mode:default',
-                      'mode:lang', 'outsider-shares-ili-with-placeholder')),
+                      'mode:lang', 'outsider-shares-ili-with-placeholder',
+                      'sibling-extensions-linked-through-a-third-lexicon')),
 ]
